@@ -190,3 +190,119 @@ func Verif_C03_zz_one_config() {
 	verifC03Post(k, ctx)
 	verif_reach("one config")
 }
+
+// Lemma L1 — one sub-distributor step from an ARBITRARY mid-block state (any states, incl. an internal account whose remains are
+// still pending, and any unaccounted inflow U = balance(main) - sum(remains) >= 0):
+//   U' = U - [MAIN in sources] * U + (amounts whose destination is MAIN), no state negative,
+// i.e. every coin taken from a source is booked exactly once. Chains of any length follow by induction over the steps of a block.
+func Verif_C03_step_lemma() {
+	k := verifDistKeeper()
+	ctx := verifCtx(verif_time_range("now", 1600000000, 1900000000))
+	nsrc := verif_choice("nsrc1", 2) + 1
+	sd := verifSub(0, nsrc, verif_choice("withShare1", 2) == 1)
+	verif_assume(sd.Validate() == nil)
+	// a sub-distributor never lists the same account twice, and MAIN is not both source and destination (cross validation)
+	closed := types.Params{SubDistributors: []types.SubDistributor{sd}}
+	_ = closed
+	seen := map[string]bool{}
+	dup := false
+	note := func(a types.Account) {
+		key := a.Type + "-" + a.Id
+		if a.Type == types.Main {
+			key = types.Main
+		}
+		if seen[key] {
+			dup = true
+		}
+		seen[key] = true
+	}
+	for _, s := range sd.Sources {
+		note(*s)
+	}
+	note(sd.Destinations.PrimaryShare)
+	for _, sh := range sd.Destinations.Shares {
+		note(sh.Destination)
+	}
+	verif_assume(!dup)
+
+	// arbitrary mid-block books: a state with positive remains for every pool destination and the burn account
+	var states []types.State
+	for i, a := range dDestPool {
+		if a.Type == types.Main || (a.Type == types.ModuleAccount && a.Id == dMain) {
+			continue
+		}
+		acc := a
+		states = append(states, types.State{Account: &acc, Remains: verifDecCoins(dDenom, verif_dec_range("rem"+string(rune('a'+i)), "1", "2e36"))})
+	}
+	// sources that are internal accounts (or base / module accounts with re-queued remains) may have a state too
+	for j, src := range sd.Sources {
+		if src.Type == types.Main {
+			continue
+		}
+		has := false
+		for _, st := range states {
+			if st.Account.Type == src.Type && st.Account.Id == src.Id {
+				has = true
+			}
+		}
+		if !has {
+			acc := *src
+			states = append(states, types.State{Account: &acc, Remains: verifDecCoins(dDenom, verif_dec_range("remsrc"+string(rune('a'+j)), "1", "2e36"))})
+		}
+	}
+	states = append(states, types.State{Account: &types.Account{}, Burn: true, Remains: verifDecCoins(dDenom, verif_dec_range("rem_burn", "1", "2e36"))})
+	sumBefore := verifRemainsSum(states, dDenom)
+	U := verif_dec_range("unaccounted", "0", "2e36")
+	total := sumBefore.Add(U)
+	verif_assume(total.Equal(total.TruncateDec()))
+	W.bank.fund(verifModuleAddr(dMain), dDenom, total.TruncateInt())
+	inflow := sdk.ZeroDec()
+	hasMain := false
+	for j, src := range sd.Sources {
+		if src.Type == types.Main {
+			hasMain = true
+			continue
+		}
+		if addr, ok := verifAccountAddr(*src); ok {
+			amt := verif_int_range("inflow"+string(rune('a'+j)), "1", dMaxAmt)
+			W.bank.fund(addr, dDenom, amt)
+			inflow = inflow.Add(sdk.NewDecFromInt(amt))
+		}
+	}
+
+	coins := k.PrepareCoinsToDistribute(sd.Sources, ctx, states, sd.Name)
+	out := &states
+	if !coins.IsZero() {
+		out, _, _ = k.StartDistributionProcess(ctx, &states, coins, sd)
+	}
+	after := *out
+	for _, st := range after {
+		verif_assert(!st.Remains.AmountOf(dDenom).IsNegative(), "no state is negative after the step")
+	}
+	toMain := sdk.ZeroDec()
+	c := coins.AmountOf(dDenom)
+	for _, sh := range sd.Destinations.Shares {
+		if sh.Destination.Type == types.Main {
+			toMain = toMain.Add(c.MulTruncate(sh.Share))
+		}
+	}
+	if sd.Destinations.PrimaryShare.Type == types.Main {
+		others := c.MulTruncate(sd.Destinations.BurnShare)
+		for _, sh := range sd.Destinations.Shares {
+			others = others.Add(c.MulTruncate(sh.Share))
+		}
+		toMain = toMain.Add(c.Sub(others))
+	}
+	expectU := U.Add(toMain)
+	if hasMain {
+		expectU = toMain
+	}
+	Uafter := sdk.NewDecFromInt(verifMainBal(dDenom)).Sub(verifRemainsSum(after, dDenom))
+	verif_assert(Uafter.Equal(expectU), "unaccounted coins in the main account: U' = U - [MAIN source]*U + amounts sent to MAIN (nothing counted twice, nothing lost)")
+	for _, src := range sd.Sources {
+		if addr, ok := verifAccountAddr(*src); ok && src.Type != types.Main {
+			verif_assert(W.bank.balance(verifAddrKey(addr), dDenom).IsZero(), "a swept source is empty")
+		}
+	}
+	verif_reach("step checked")
+}
